@@ -190,6 +190,17 @@ CLAIMED = {
             'read; the boundary is exact (L bytes not above, L+1 above); the environment limit is truncated.',
             'File-system semantics, Python float parsing and the envelope\'s jsonpickle trip are validated by the correspondence '
             'run only.', 'DESIGN.md 6/C20'),
+    'C12': ('Lean 4 theorems over a hand-written transition system of the buffer/flusher/stop protocol (all schedules, all '
+            'workloads, any wrapped cassette); tied to /repo by running the real AsyncRecordOnlyTapeCassette around a spy cassette '
+            'under a deterministic sys.settrace scheduler and driving the model with the atomic events observed in each run',
+            'Kernel-checked for every interleaving of any number of producers, flusher micro-steps, timer and close: no loss, no '
+            'duplication, order preserved; everything appended before close is applied as a prefix once the flusher stops, and '
+            'after close the flusher always can stop; per-producer program order; store and outcomes equal the synchronous twin; '
+            'failures never block later ops; the lock is never held across a wrapped call. Broken variants are refuted.',
+            'Partial: CPython switch points are explored within bounds (all schedules with <= k pre-emptions on 5 workloads plus '
+            'random workloads and schedules at line and byte-code granularity); close()\'s join(timeout) expiring under a slow '
+            'store is wall-clock behaviour outside the model; list.append and attribute stores assumed atomic; known finding K9 '
+            '(values captured by reference until the flush).', 'DESIGN.md 6/C12'),
 }
 
 NOT_YET = 'check not built yet in this round (work in progress; see DESIGN.md section 6 for the planned proof and tie)'
